@@ -3,11 +3,12 @@
    and text.  located_at fs m pos = {file name of model m; line/col of offset pos in the text of
    model m, computed by the independent walk linecol_spec}.  The *_desc / importuri_relocates values
    are regenerated from textx/model.py and textx/scoping/providers.py on every run. *)
-From TxV Require Import Core.Base Model.ErrLoc Gen.SrcLoc Proofs.ErrLocProofs Proofs.ErrLocSrcProofs.
+From TxV Require Import Core.Base Model.PegSyntax Model.Peg Model.Build.
+From TxV Require Import Model.ErrLoc Gen.SrcLoc Proofs.ErrLocProofs Proofs.ErrLocSrcProofs Model.ErrLocLoad Proofs.ErrLocLoadProofs.
 
 (* Arpeggio's pos_to_linecol (cached line ends + bisect) is exact for EVERY text and offset *)
 Theorem C28_linecol_exact : forall t pos, pos <= length t ->
-  pos_to_linecol t pos = linecol_spec t pos.
+  ErrLoc.pos_to_linecol t pos = linecol_spec t pos.
 Proof. exact pos_to_linecol_exact. Qed.
 Print Assumptions C28_linecol_exact.
 
@@ -72,3 +73,35 @@ Example C28_nonvacuous :
     {| r_file := Some [109]%N; r_line := Some 4; r_col := Some 1; r_nchar := None |}.
 Proof. vm_compute. repeat split; try reflexivity. repeat constructor. Qed.
 Print Assumptions C28_nonvacuous.
+
+(* ---- composed with the interpreter model (Model/Peg.v): the offset is no longer an input.
+   For EVERY dumped grammar table, config, regex oracle, memoization flag, fuel and file list: when the
+   interpreter rejects the text of model m, its failure position p (NoMatch.position = furthest failure,
+   Peg.run = SyntaxErr p) is where the TextXSyntaxError is located: file of m, line/col of p in m's text.
+   (in_text: p <= length; the interpreter never leaves the text when the oracle does not, which is not
+   proved here and therefore a hypothesis.) *)
+Theorem C28_syntax_error_at_interpreter_failure : forall g c orc memo fuel fs m,
+  match Peg.run g c orc memo fuel (s_text (file_at fs m)) with
+  | SyntaxErr p =>
+      in_text fs m p -> load_syntax_error syntax_desc g c orc memo fuel fs m = Some (located_at fs m p)
+  | _ => load_syntax_error syntax_desc g c orc memo fuel fs m = None
+  end.
+Proof. exact load_syntax_error_spec. Qed.
+Print Assumptions C28_syntax_error_at_interpreter_failure.
+
+(* grammar  M: 'a' EOF  on the text "\na\n b": the interpreter fails at offset 4 = line 3, column 2 *)
+Example C28_syntax_composed_nonvacuous :
+  let g := mkGrammar [mkNode KSeq [1;2] None false [] false false None None;
+                      mkNode (KStr [97]%N None) [] None false [] false false None None;
+                      mkNode KEOF [] None false [] false false None None] 0 None in
+  let fs := [ {| s_name := Some [109]%N; s_text := [10;97;10;32;98]%N |} ] in
+  Peg.run g (mkConfig true [32;10]%N) (fun _ _ => None) false 20 (s_text (file_at fs 0)) = SyntaxErr 4 /\
+  load_syntax_error syntax_desc g (mkConfig true [32;10]%N) (fun _ _ => None) false 20 fs 0
+  = Some {| r_file := Some [109]%N; r_line := Some 3; r_col := Some 2; r_nchar := None |}.
+Proof. vm_compute. split; reflexivity. Qed.
+Print Assumptions C28_syntax_composed_nonvacuous.
+
+(* the pos_to_linecol of Model/Build.v (C06) and the one used here are the same function, everywhere *)
+Theorem C28_linecol_models_agree : forall input p, Build.pos_to_linecol input p = ErrLoc.pos_to_linecol input p.
+Proof. exact linecol_models_agree. Qed.
+Print Assumptions C28_linecol_models_agree.
